@@ -236,7 +236,8 @@ def _rand_chunks(rng: random.Random) -> list[bytes]:
     n = rng.randint(1, 6)
     out = []
     for _ in range(n):
-        k = rng.choice([0, 0, 1, 3, 100, 5000, 70000])
+        # (occasionally one chunk well above every internal buffer size: 256 KiB receive buffers, 16 KiB TLS records)
+        k = rng.choice([0, 0, 1, 3, 100, 5000, 70000]) if rng.random() > 0.06 else rng.choice([300_000, 700_000])
         out.append(bytes(rng.getrandbits(8) for _ in range(min(k, 64))) * (k // 64 + 1) if k else b"")
         out[-1] = out[-1][:k]
     return out
